@@ -3,6 +3,7 @@ pub mod findings;
 pub mod par;
 pub mod memsource;
 pub mod codec;
+pub mod mvt;
 pub mod tilesets;
 pub mod containers;
 pub mod pipeline;
